@@ -95,9 +95,24 @@ def trace_reads(mps, olist):
     log = []
     saved = (MPS.expect, MPS.get_entropy, MPS.get_schmidt_spectrum)
 
+    formula = []
+
     def expect(self, observable):
         log.append((ids[id(observable)], centre_of(self)))
-        return saved[0](self, observable)
+        val = saved[0](self, observable)
+        # the contraction the theorem C11_centred_expectation_is_dense is about, evaluated on the real centre tensor(s):
+        #   sum_{p,p',l,r} O[p,p'] A[p',l,r] conj(A[p,l,r])   (two sites: A = merged tensor, physical index p1*d2+p2)
+        try:
+            st = observable.sites if isinstance(observable.sites, list) else [observable.sites]
+            a = self.tensors[st[0]]
+            if len(st) == 2:
+                b = self.tensors[st[1]]
+                a = np.einsum("plk,qkr->pqlr", a, b).reshape(a.shape[0] * b.shape[0], a.shape[1], b.shape[2])
+            o = np.asarray(observable.gate.matrix, dtype=complex)
+            formula.append((ids[id(observable)], complex(np.einsum("pq,qlr,plr->", o, a, a.conj())), complex(val)))
+        except Exception as e:  # noqa: BLE001
+            formula.append((ids[id(observable)], None, repr(e)))
+        return val
 
     cur = {}
 
@@ -130,6 +145,7 @@ def trace_reads(mps, olist):
         mps.evaluate_observables(p, res, 0)
     finally:
         MPS.expect, MPS.get_entropy, MPS.get_schmidt_spectrum = saved
+    trace_reads.formula = formula
     return log, order, res, p
 
 
@@ -144,6 +160,11 @@ def correspond(ctx):
             log, order, res, p = trace_reads(mps, olist)
         except Exception as e:  # noqa: BLE001
             log, order = f"EXC:{type(e).__name__}:{e}", []
+        for oid_, want_, got_ in getattr(trace_reads, "formula", []):
+            ctx.count("centre_contraction_checked")
+            if want_ is None or abs(want_ - got_) > 1e-9:
+                ctx.mismatch("MPS.expect vs the centre contraction local_expect of LinAlg/TT (evaluated on the real centre tensors)",
+                             {"L": L, "observable": (olist[oid_][0].gate.name, olist[oid_][0].sites)}, got_, want_, key="centre-contraction")
         impl.append((log, order))
         exprs.append(f"(map oid (sorted_observables {g_obs(olist)}), map (fun r => (fst (fst (fst r)), snd r)) (filter (fun r => match snd (fst (fst r)) with Diag => false | _ => true end) (reads {g_obs(olist)})))")
         cases.append((L, olist))
